@@ -513,6 +513,26 @@ def obligations(tier):
 
     obs.append(Obligation('equality.controlled_operations', eq_ctrl_body, twin=lambda cx: eq_ctrl_body(cx, wrong=True), opts={'weight': 6}, desc='ControlledOperation(controls, X(t)**e, control_values) == ControlledOperation(...) for all pairs from a menu of 10 ProductOfSums / SumOfProducts control values (correlated ones included), controls listed in both orders, symbolic exponent: equality (and equal hash) implies the same operator, written out from the allowed joint control states'))
 
+    # ---- 5b. trace_distance_bound is an upper bound of the true maximal trace distance ----------------------------
+    # A unitary whose eigenvalues are exp(i a) (several times) and exp(i (a + d)) moves a state by at most
+    # sqrt(1 - min_p |p + (1 - p) e^{i d}|^2) = |sin(d / 2)| (attained at p = 1/2): the bound must not be smaller.
+    TD = [('X', cirq.XPowGate), ('Y', cirq.YPowGate), ('Z', cirq.ZPowGate), ('CZ', cirq.CZPowGate), ('CX', cirq.CXPowGate), ('SWAP', cirq.SwapPowGate), ('ZZ', cirq.ZZPowGate), ('XX', cirq.XXPowGate), ('YY', cirq.YYPowGate), ('CCZ', cirq.CCZPowGate), ('CCX', cirq.CCXPowGate), ('H', cirq.HPowGate)]
+    for name, cls in (TD if tier == 'thorough' else TD[:6]):
+        def td_body(cx, wrong=False, cls=cls, name=name):
+            t = cx.real('t', -BOX, BOX)
+            s = cx.real('s', -1.0, 1.0)
+            g = cls(exponent=t, global_shift=s)
+            for which, obj in (('gate', g), ('op', g.on(*cirq.LineQubit.range(cirq.num_qubits(g))))):
+                b = cirq.trace_distance_bound(obj)
+                half = (t * (0.5 * math.pi))
+                sn = half.sin() if hasattr(half, 'sin') else math.sin(half)
+                if wrong:
+                    sn = sn * 1.5
+                cx.check(b * b - sn * sn >= -1e-7, label=f'trace_distance_bound[{name}.{which}]**2 >= sin(pi t / 2)**2 (the maximal trace distance of a two-eigenvalue unitary)')
+                cx.check(b <= 1.0 + 1e-9, label=f'trace_distance_bound[{name}.{which}] <= 1')
+
+        obs.append(Obligation(f'trace_distance.{name}', td_body, twin=lambda cx, b=td_body: b(cx, wrong=True), desc='cirq.trace_distance_bound(g(t, s)) (gate and operation; EigenGate._trace_distance_bound_ / the family override, trace_distance_from_angle_list with a symbolic sort) is at least |sin(pi t / 2)|, the maximal trace distance a unitary with eigenphases pi t s and pi t (s + 1) can cause, for symbolic exponent and shift'))
+
     # ---- 6. has_stabilizer_effect True => matrix maps Paulis to Paulis -------------------------------------------
     ST = [('X', lambda t: cirq.X**t, 1), ('Y', lambda t: cirq.Y**t, 1), ('Z', lambda t: cirq.Z**t, 1), ('H', lambda t: cirq.H**t, 1), ('CZ', lambda t: cirq.CZ**t, 2), ('CX', lambda t: cirq.CX**t, 2), ('SWAP', lambda t: cirq.SWAP**t, 2), ('ISWAP', lambda t: cirq.ISWAP**t, 2), ('ZZ', lambda t: cirq.ZZ**t, 2), ('XX', lambda t: cirq.XX**t, 2), ('YY', lambda t: cirq.YY**t, 2), ('PhasedX', lambda t: cirq.PhasedXPowGate(exponent=t, phase_exponent=0.5), 1), ('CY', lambda t: cirq.CY**t, 2)]
     for name, build, k in ST:
@@ -587,6 +607,6 @@ def main(tier, seed=0, replay=None, only=None, procs=None):
         'control_specs': 8,
         'equality_shifts': [0.0, -0.5, 0.25],
         'commutes_fallback': 'paths on which the answer came from the numeric matrix comparison (np.allclose(AB, BA), rtol 1e-5) are tautological and not re-asserted; rule-based answers (_commutes_, _commutes_on_qids_, disjoint qubits, equal moments) are',
-        'outside': ['approx_eq / equal_up_to_global_phase for HPowGate and ISwapPowGate (the NRA proof with irrational eigenvector entries does not finish: left out, not claimed)', 'has_stabilizer_effect of PhasedXZGate (round(x, ndigits) of a symbolic value) and of 3-qubit gates (unitary-based strategy)', 'trace_distance_bound (arccos / eigenvalue angles of symbolic matrices)', 'predicates answering False/None are not checked (they may be conservative)', 'MatrixGate powers (LAPACK)', 'FSimGate ** non-unit powers (canonicalised angle branch)'],
+        'outside': ['approx_eq / equal_up_to_global_phase for HPowGate and ISwapPowGate (the NRA proof with irrational eigenvector entries does not finish: left out, not claimed)', 'has_stabilizer_effect of PhasedXZGate (round(x, ndigits) of a symbolic value) and of 3-qubit gates (unitary-based strategy)', 'trace_distance_bound of controlled / parallel / phased gates (eigenvalue angles of symbolic matrices through LAPACK; a diagonal-eigvals + principal-angle model exists in symx/proxy.py but the three-eigenspace VC with floor atoms was not decided within 14 min: not claimed); claimed only for the two-eigenvalue EigenGate families (trace_distance.*)', 'predicates answering False/None are not checked (they may be conservative)', 'MatrixGate powers (LAPACK)', 'FSimGate ** non-unit powers (canonicalised angle branch)'],
     }
     return run_check(PID, tier, 'checks.C08', SHIMS, LEVEL, BASE_ASSUMPTIONS, bounds, seed=seed, replay=replay, only=only, procs=procs)
